@@ -911,12 +911,24 @@ class Ctx:
         self._sqrt[key] = (x.t, s)
         return s
 
+    LOG_SCREEN = math.log(1e-15)
+
+    def _rounded_key(self, key):
+        """Canonical key with coefficients rounded to 12 significant digits (float noise in constants)."""
+        if not key or key[0] == "id":
+            return key
+        out = []
+        for mono, (n, d) in key:
+            v = n / d
+            out.append((mono, float(f"{v:.11e}")))
+        return tuple(out)
+
     def exp_of(self, x: Sym):
-        key = self.canon_key(x.t)
+        key = self._rounded_key(self.canon_key(x.t))
         if key == ():
             return 1.0            # the argument is identically zero
         if len(key) == 1 and key[0][0] == ():
-            return math.exp(key[0][1][0] / key[0][1][1])
+            return math.exp(key[0][1])
         if key in self._exp:
             return self._exp[key][1]
         e = self._expf(_to_real(x.t))
@@ -924,6 +936,14 @@ class Ctx:
         # monotonicity / injectivity instances against earlier exp terms and against exp(0) = 1
         self._add(z3.And(z3.Implies(x.t <= 0, e <= 1), z3.Implies(x.t >= 0, e >= 1),
                          z3.Implies(x.t == 0, e == 1)))
+        # the screening threshold used by the overlap code: exp(x) <= 1e-15  <=>  x <= ln(1e-15)
+        lg = _realval(self.LOG_SCREEN)
+        thr = _realval(1e-15)
+        self._add(z3.And((x.t <= lg) == (e <= thr), (x.t < lg) == (e < thr)))
+        # a few exact sample points bracket the value (keeps solver models close to the real exponential)
+        for pt in (-30.0, -25.0, -20.0, -15.0, -10.0, -5.0, -2.0, -1.0, -0.5):
+            v = _realval(math.exp(pt))
+            self._add((x.t <= _realval(pt)) == (e <= v))
         for (ot, os) in self._exp.values():
             self._add(z3.And(z3.Implies(ot <= x.t, os.t <= e), z3.Implies(x.t <= ot, e <= os.t)))
         s = Sym(e)
